@@ -171,8 +171,9 @@ func c19Eval(c *run.Ctx, id string, prog *wgen.Program, src string, feats map[st
 			edited = wgen.InsertNeutral(src, toks, r, r.Range(1, 12), true)
 		case 1:
 			kind = "squeeze"
-			toks := wgen.LexWGSL(src)
-			edited = wgen.SqueezeBlank(src, toks, r, r.Range(5, 60))
+			glued, n := wgen.GlueTemplateClose(src, wgen.LexWGSL(src), run.NewRng(run.CaseSeed(c.Seed, "glue:"+id, k)))
+			cov["template-close-glued(>= >>)"] += n
+			edited = wgen.SqueezeBlank(glued, wgen.LexWGSL(glued), r, r.Range(5, 60))
 		case 2:
 			kind = "blank+comments+squeeze"
 			toks := wgen.LexWGSL(src)
